@@ -47,7 +47,10 @@ def lead_exponent(
                [0, 0, 1, 1, 0]])
 
     """
-    poly_ = numpoly.aspolynomial(poly)
+    names = numpoly.aspolynomial(poly).names
+    # the monomial order refers to the indeterminates in index order, whatever
+    # order the polynomial stores them in
+    poly_ = numpoly.align_indeterminants(poly)[0]
     shape = poly_.shape
     poly = poly_.ravel()
     out = numpy.zeros(poly_.shape + (len(poly_.names),), dtype=int)
@@ -55,4 +58,6 @@ def lead_exponent(
         return out
     for idx in numpoly.glexsort(poly_.exponents.T, graded=graded, reverse=reverse):
         out[poly_.coefficients[idx] != 0] = poly_.exponents[idx]
-    return out.reshape(shape + (len(poly_.names),))
+    out = out.reshape(shape + (len(poly_.names),))
+    # columns back in the order of the polynomial's own names
+    return out[..., [poly_.names.index(name) for name in names]]
